@@ -236,7 +236,68 @@ func (s *scripted) close() {
 	}
 }
 
+// leaderLoss: the believed leader stops answering for good and another node is elected; with discovery on (the
+// default) the client must find the new leader through any live node, whatever the read preference is, and both
+// writes and reads must succeed again within a few calls.
+func leaderLoss(out *cq.Out, seed uint64) {
+	for pref := 0; pref < 5; pref++ {
+		for _, revive := range []bool{false, true} {
+			s := newScripted(3)
+			s.leader = 0
+			desc := map[string]interface{}{"scenario": "leader-loss", "seed": seed, "servers": 3, "pref": prefNames[pref], "revive": revive}
+			done := make(chan struct{})
+			var steps []string
+			go func() {
+				defer close(done)
+				c, err := client.NewHTTPClient(client.SetHttpClient(&http.Client{Timeout: 2 * time.Second}),
+					client.SetURLs(s.servers[0].URL, s.servers[1].URL, s.servers[2].URL), client.SetReadPreference(client.ReadPref(pref)),
+					client.SetTopologyDiscovery(true), client.SetAttemptToReviveEndpoints(revive), client.SetHealthChecks(false), client.SetMaxRetries(0), client.SetAPIKey("k"), client.SetHasherFunction(hashing.NewSha256Hasher))
+				if err != nil {
+					out.Violate("C20:no-convergence-on-leader:start", fmt.Sprintf("client start-up with three healthy nodes failed: %v", err), desc)
+					return
+				}
+				if _, err := c.Add("x"); err != nil {
+					out.Violate("C20:no-convergence-on-leader:healthy", fmt.Sprintf("a write to a healthy 3-node cluster failed: %v", err), desc)
+				}
+				s.mu.Lock()
+				s.mode[0] = "down"
+				s.leader = 1
+				s.mu.Unlock()
+				var lastW, lastR error
+				for k := 0; k < 4; k++ {
+					s.mu.Lock()
+					before := len(s.log)
+					s.mu.Unlock()
+					_, lastW = c.Add("y")
+					_, lastR = c.Incremental(0, 0)
+					s.mu.Lock()
+					steps = append(steps, fmt.Sprintf("round %d after the leader died: write err=%v read err=%v reqs=%v", k, lastW, lastR, s.log[before:]))
+					s.mu.Unlock()
+				}
+				desc["steps"] = steps
+				if lastW != nil {
+					out.Violate("C20:no-convergence-on-leader:leader-lost", fmt.Sprintf("node 0 (the leader) stopped answering and node 1 was elected; with discovery on and read preference %s the 4th write afterwards still fails: %v", prefNames[pref], lastW), desc)
+				}
+				if lastR != nil {
+					out.Violate("C20:no-convergence-on-leader:reads-after-leader-lost", fmt.Sprintf("node 0 (the leader) stopped answering and node 1 was elected; with discovery on and read preference %s the 4th read afterwards still fails: %v", prefNames[pref], lastR), desc)
+				}
+				c.Close()
+			}()
+			select {
+			case <-done:
+			case <-time.After(60 * time.Second):
+				desc["steps"] = steps
+				out.Violate("C20:call-does-not-terminate", "a client call did not return within 60 s after the leader was lost although every request is answered or refused immediately", desc)
+			}
+			out.Count("leader_loss_scenarios", 1)
+			out.Case(fmt.Sprintf("leaderloss:%d:%v", pref, revive), true)
+			s.close()
+		}
+	}
+}
+
 func clientScenarios(out *cq.Out, rng *cq.Rng, seed uint64, tier string) {
+	leaderLoss(out, seed)
 	n := 12
 	if tier == "thorough" {
 		n = 60
